@@ -134,6 +134,23 @@ impl Check for C09 {
         t.params.insert("rows2".into(), json!(rows2));
         // a resize in the middle of the text, at a line boundary (after the k-th CR LF)
         t.params.insert("resize_after_line".into(), json!(r.usize_below(nlines.max(1))));
+        // a height-only (or same-size) resize at an arbitrary character position, biased to the
+        // positions where a row has just been filled (wrap pending in the middle of a logical line)
+        let mut full_rows: Vec<usize> = vec![];
+        let mut in_line = 0usize;
+        for (i, ch) in chars.iter().enumerate() {
+            if *ch == '\r' || *ch == '\n' {
+                in_line = 0;
+            } else {
+                in_line += 1;
+                if in_line % cols == 0 {
+                    full_rows.push(i + 1);
+                }
+            }
+        }
+        let at = if !full_rows.is_empty() && r.chance(2, 3) { *r.pick(&full_rows) } else { r.usize_below(chars.len() + 1) };
+        t.params.insert("height_resize_at".into(), json!(at));
+        t.params.insert("rows3".into(), json!(if r.chance(1, 4) { rows } else { 1 + r.usize_below(14) }));
         t.events = evs;
         t
     }
@@ -225,6 +242,36 @@ impl Check for C09 {
                 }
             }
         }
+        // fifth execution: a resize that leaves the width alone (height only, or to the same size) at
+        // an arbitrary character position, also while a wrap is pending in the middle of a line
+        if let (Some(at), Some(rows3)) = (t.param_u64("height_resize_at"), t.param_u64("rows3")) {
+            let at = (at as usize).min(cs.len());
+            let head: String = cs[..at].iter().collect();
+            let tail: String = cs[at..].iter().collect();
+            let rows3 = (rows3 as usize).max(1);
+            let r5 = catch_avt(|| {
+                let mut vt = build(t.config.cols, t.config.rows, None);
+                vt.feed_str(&head);
+                let pending = vt.cursor().col >= t.config.cols;
+                vt.resize(t.config.cols, rows3);
+                vt.feed_str(&tail);
+                (read_text(&vt), pending)
+            });
+            if let Ok(((text5, unw5), pending)) = r5 {
+                st.bump("height_only_resize_compared");
+                if pending && !tail.is_empty() && !tail.starts_with('\r') {
+                    st.bump("height_only_resize_while_wrap_pending_mid_line");
+                }
+                let t5 = strip_trailing_empty(text5);
+                if t5 != expected {
+                    return Verdict::Violation { rule: "C09/text-with-height-only-resize".into(), detail: format!("{} resized to {} rows after {} characters: text() != input lines; {}", geo(t.config.cols, t.config.rows), rows3, at, first_diff(&t5, &expected)) };
+                }
+                let u5: Vec<String> = strip_trailing_empty(unw5.iter().map(|l| l.trim_end_matches(' ').to_string()).collect());
+                if u5 != expected {
+                    return Verdict::Violation { rule: "C09/unwrapper-with-height-only-resize".into(), detail: format!("{} resized to {} rows after {} characters: {}", geo(t.config.cols, t.config.rows), rows3, at, first_diff(&u5, &expected)) };
+                }
+            }
+        }
         let t3 = strip_trailing_empty(text3);
         if t3 != expected {
             return Verdict::Violation { rule: "C09/text-after-resize".into(), detail: format!("fed at {} then resized to {}: text() != input lines; {}", geo(t.config.cols, t.config.rows), geo(cols2, rows2), first_diff(&t3, &expected)) };
@@ -260,12 +307,12 @@ impl Check for C09 {
     }
     fn meta(&self) -> Meta {
         Meta {
-            rule: "texts of printable characters and CR LF (line lengths 0..3 widths with k*w-1, k*w, k*w+1 forced, lines of spaces, interior/trailing runs of spaces, non-ASCII), widths 1..40, heights 1..12, unlimited scrollback, any chunking; twins: the same text on a second geometry fed in one call, and the first terminal resized to the second geometry afterwards (the cursor is at the end of the text, so a resize may not cut anything); oracle: text() == input lines right-trimmed (trailing empty lines aside) on both, TextUnwrapper over lines() equal up to trailing spaces, text() identical across the two geometries; non-trivial = non-empty text and two different geometries; distinct = (text, widths)",
+            rule: "texts of printable characters and CR LF (line lengths 0..3 widths with k*w-1, k*w, k*w+1 forced, lines of spaces, interior/trailing runs of spaces, non-ASCII), widths 1..40, heights 1..12, unlimited scrollback, any chunking; twins: the same text on a second geometry fed in one call, the first terminal resized to the second geometry afterwards (the cursor is at the end of the text, so a resize may not cut anything), resized to it between two lines, and resized in height only (or to the same size) at an arbitrary character position, biased to the instants a row has just been filled (wrap pending mid-line); terminals made by Vt::new or the builder (obs::build); oracle: text() == input lines right-trimmed (trailing empty lines aside) on both, TextUnwrapper over lines() equal up to trailing spaces, text() identical across the two geometries; non-trivial = non-empty text and two different geometries; distinct = (text, widths)",
             assumptions: vec!["Unicode white space other than U+0020 is not generated (text() trims with trim_end, the statement says spaces)", "DEL is not generated"],
             real: vec!["avt::Vt (two geometries)", "avt::util::TextUnwrapper"],
             simulated: vec!["App (text producer)", "Pipe (chunking)", "configuration twin (S6)"],
             model: vec!["input lines split at CR LF and right-trimmed"],
-            probes: vec!["line_wraps", "line_len_multiple_of_width", "scrolled_into_scrollback", "one_column", "deep_scroll_runs", "scrollback_over_1100_rows"],
+            probes: vec!["line_wraps", "line_len_multiple_of_width", "scrolled_into_scrollback", "one_column", "deep_scroll_runs", "scrollback_over_1100_rows", "height_only_resize_compared", "height_only_resize_while_wrap_pending_mid_line"],
             fault_kinds: vec!["feed_str_calls"],
         }
     }
